@@ -1232,7 +1232,9 @@ def apply_policy(model, policy, seed):
                     fan_in = p[0].numel() if p.dim() >= 2 else 1
                     final = _is_final(mname)
                     if pname == "weight":
-                        p.copy_(rn(p, (s if final else min(base, 1.0) if s else 0.0) / max(fan_in, 1) ** 0.5))
+                        # final layer: the spread of the emitted transformer parameters comes from the bias (scale s);
+                        # the input-dependent part stays O(1) so that logits do not scale with |inputs| * s
+                        p.copy_(rn(p, (min(s, 1.0) if final else min(base, 1.0) if s else 0.0) / max(fan_in, 1) ** 0.5))
                     else:
                         p.copy_(rn(p, s if final else min(s, 0.5)))
                         if final:
